@@ -143,7 +143,7 @@ class Run:
             raise Infra("TLC %s/%s failed (rc=%d):\n%s\n%s" % (module, cfg, p.returncode, out[-6000:], p.stderr[-2000:]))
         return res
 
-    def gen(self, module, cfg, out_path, env=None, timeout=1800, xmx="4g"):
+    def gen(self, module, cfg, out_path, env=None, timeout=1800, xmx="4g", allow_empty=False):
         """phase A+B: TLC enumerates the spec's own case space, checks the spec's self-consistency
         invariants on every case, and prints each case as JSON (<<"CASE", json>>)."""
         res = self.tlc(module, cfg, env=env, workers=1, timeout=timeout, xmx=xmx)
@@ -157,7 +157,7 @@ class Run:
                 f.write(js + "\n")
                 n += 1
         log("[gen] %s/%s: %d cases, %d states, %.1fs" % (module, cfg, n, res["states"], res["wall"]))
-        if n == 0:
+        if n == 0 and not allow_empty:
             raise Infra("generator %s produced no cases" % cfg)
         return n
 
